@@ -851,7 +851,25 @@ def rule_node_order(ctx: Ctx) -> None:
                 if a in ("to_numpy_array", "adjacency_matrix", "to_scipy_sparse_array"):
                     n += 1
                     nl = get_kw(c, "nodelist")
-                    if nl is not None and not (isinstance(nl, ast.Constant) and nl.value is None):
+
+                    def own_order(e, depth=0):
+                        """None, or the node order of a graph as it stands: list(G.nodes), G.nodes(), [*G.nodes] — through local names"""
+                        if isinstance(e, ast.Constant) and e.value is None:
+                            return True
+                        t = norm(e)
+                        if t.endswith(".nodes") or t.endswith(".nodes()"):
+                            return True
+                        if isinstance(e, ast.Call) and isinstance(e.func, ast.Name) and e.func.id in ("list", "tuple") and len(e.args) == 1:
+                            return own_order(e.args[0], depth + 1)
+                        if isinstance(e, ast.List) and len(e.elts) == 1 and isinstance(e.elts[0], ast.Starred):
+                            return own_order(e.elts[0].value, depth + 1)
+                        if isinstance(e, ast.IfExp):
+                            return own_order(e.body, depth + 1) and own_order(e.orelse, depth + 1)
+                        if isinstance(e, ast.Name) and depth < 3:
+                            binds = [a.value for a in ast.walk(fn) if isinstance(a, ast.Assign) and any(isinstance(t_, ast.Name) and t_.id == e.id for t_ in a.targets)]
+                            return bool(binds) and all(own_order(b, depth + 1) for b in binds)
+                        return False
+                    if nl is not None and not own_order(nl):
                         ctx.fail("node.order", m, c, f"`{short(c)}` fixes its own node order; sibling conversions use the graph's node order",
                                  func=qualname(fn), construct=f"{qualname(fn)}: nodelist={short(nl, 40)}")
                     else:
